@@ -247,6 +247,13 @@ func runC13(c *Ctx, w *World, r *Report) {
 				}
 				nscan++
 				if n == "bitmap.NextOne" {
+					if !iv.HasN && !isPos && iv.HasScaledN && iv.Scale == 64 {
+						// word counter k guarded by its position: 64*k < M visits every word that starts before M
+						if d := iv.ScaledN.Sub(endL); !(d.IsConst() && d.K >= 0) {
+							badE = "the forward scan over word indexes stops when 64*k reaches " + iv.ScaledN.String() + ", before end"
+						}
+						return
+					}
 					if !iv.HasN {
 						badE = "the forward word scan has no upper bound"
 						return
@@ -302,6 +309,18 @@ func runC13(c *Ctx, w *World, r *Report) {
 							}
 						}
 						if len(E.T) == 0 && E.K <= 0 {
+							okLo = true
+						}
+					}
+					// guard on the position of the word: 64*k + R >= i-ish. Word k must be visited whenever its last
+					// position 64*k+63 is >= i: the guard D >= 0 (D > 0) must follow from 64*k + 63 - i >= 0.
+					for _, cd := range fa.Conds(call.Block()) {
+						D, op, ok := fa.CondRel(cd)
+						if !ok || (op != opGE && op != opGT) {
+							continue
+						}
+						need := linConst(63).addScaled(fa.Lin(idx), 64).Sub(iL)
+						if d := D.Sub(need); d.IsConst() && (op == opGE && d.K >= 0 || op == opGT && d.K >= 1) {
 							okLo = true
 						}
 					}
